@@ -21,13 +21,13 @@ A_SSE = A_ENGINE + [
 ]
 
 PARTIAL = {
-    "C01": "proved for all inputs: CJJ14.PiBas (Enc |- Repr, Repr |- Search == DB[w], composed client lemma) and the shared toolkit callees; bounded stand-in only: the other eight schemes",
-    "C02": "proved for all inputs: CJJ14.PiBas (absent keyword => empty result, no exception); bounded stand-in only: the other eight schemes",
-    "C03": "proved for all inputs: CJJ14.PiBas key/token/EDB/result round trips and config parsing; bounded stand-in only: the other eight schemes and the server-side composition",
-    "C05": "proved for all inputs: CJJ14.PiBas |D| == N and the table builder's size; bounded stand-in only: the other eight schemes and value-length uniformity",
-    "C06": "proved for all inputs: the label-table builder of CJJ14.PiBas stores labels in strictly ascending order (modulo B3); bounded stand-in only: the other builders and array placement",
-    "C07": "proved for all inputs: CJJ14.PiBas _Enc/_Trap/_Search mutate nothing reachable from their arguments (frame obligations); bounded stand-in only: the other eight schemes and the history claim",
-    "C08": "proved for all inputs: CJJ14.PiBas _parse_config exact refusal conditions; bounded stand-in only: the configuration grid of the property over all nine schemes",
+    "C01": "proved for all inputs: CJJ14.PiBas and CJJ14.PiPack (Enc |- Repr, Repr |- Search == DB[w], composed client lemma) and the shared toolkit callees; bounded stand-in only: the other seven schemes",
+    "C02": "proved for all inputs: CJJ14.PiBas, CJJ14.PiPack (absent keyword => empty result, no exception); bounded stand-in only: the other seven schemes",
+    "C03": "proved for all inputs: CJJ14.PiBas / PiPack key/token/EDB/result round trips and config parsing; bounded stand-in only: the other seven schemes and the server-side composition",
+    "C05": "proved for all inputs: CJJ14.PiBas |D| == N, CJJ14.PiPack |D| == number of blocks, and the table builder's size; bounded stand-in only: the other seven schemes and value-length uniformity",
+    "C06": "proved for all inputs: the label-table builders of CJJ14.PiBas / PiPack store labels in strictly ascending order (modulo B3); bounded stand-in only: the other builders and array placement",
+    "C07": "proved for all inputs: CJJ14.PiBas / PiPack _Enc/_Trap/_Search mutate nothing reachable from their arguments (frame obligations); bounded stand-in only: the other seven schemes and the history claim",
+    "C08": "proved for all inputs: CJJ14.PiBas / PiPack _parse_config exact refusal conditions; bounded stand-in only: the configuration grid of the property over all nine schemes",
 }
 
 PARTIAL["C04"] = "proved: AESxCBC.Encrypt's output is iv || CBC(pkcs7(m)) with a 16-byte IV (C14) and CJJ14.PiBas stores only PRF outputs as labels and Encrypt outputs as values (Repr); bounded stand-in only: substring absence and ciphertext-block freshness over all nine schemes"
@@ -44,15 +44,15 @@ PROPS = {
         "B2: bytes.fromhex / bytes.hex / str.encode / bytes.decode are abstract (uninterpreted) mutually inverse maps",
     ], bounded=[]),
     "C18": dict(modules=["bits"], assumptions=A_ENGINE, bounded=[]),
-    "C01": dict(modules=["pibas", "sse_bounded"], assumptions=A_SSE, bounded=[], partial=PARTIAL["C01"], runtime_checks=[["sse_bounded", "rt_c01_c02"]]),
-    "C02": dict(modules=["pibas", "sse_bounded"], assumptions=A_SSE, bounded=[], partial=PARTIAL["C02"], runtime_checks=[["sse_bounded", "rt_c01_c02"]]),
-    "C03": dict(modules=["pibas", "sse_bounded"], assumptions=A_SSE, bounded=[], partial=PARTIAL["C03"], runtime_checks=[["sse_bounded", "rt_c03"]]),
-    "C04": dict(modules=["pibas", "sse_bounded"], assumptions=A_SSE + ["A4/A2 (NOT decided): absence of chance substrings / collisions is probabilistic"], bounded=[],
+    "C01": dict(modules=["pibas", "pipack", "sse_bounded"], assumptions=A_SSE, bounded=[], partial=PARTIAL["C01"], runtime_checks=[["sse_bounded", "rt_c01_c02"]]),
+    "C02": dict(modules=["pibas", "pipack", "sse_bounded"], assumptions=A_SSE, bounded=[], partial=PARTIAL["C02"], runtime_checks=[["sse_bounded", "rt_c01_c02"]]),
+    "C03": dict(modules=["pibas", "pipack", "sse_bounded"], assumptions=A_SSE, bounded=[], partial=PARTIAL["C03"], runtime_checks=[["sse_bounded", "rt_c03"]]),
+    "C04": dict(modules=["pibas", "pipack", "sse_bounded"], assumptions=A_SSE + ["A4/A2 (NOT decided): absence of chance substrings / collisions is probabilistic"], bounded=[],
                 partial=PARTIAL["C04"], runtime_checks=[["sse_bounded", "rt_c04"]]),
-    "C05": dict(modules=["pibas", "sse_bounded"], assumptions=A_SSE, bounded=[], partial=PARTIAL["C05"], runtime_checks=[["sse_bounded", "rt_c05"]]),
-    "C06": dict(modules=["pibas", "sse_bounded"], assumptions=A_SSE, bounded=[], partial=PARTIAL["C06"], runtime_checks=[["sse_bounded", "rt_c06"]]),
-    "C07": dict(modules=["pibas", "sse_bounded"], assumptions=A_SSE, bounded=[], partial=PARTIAL["C07"], runtime_checks=[["sse_bounded", "rt_c07"]]),
-    "C08": dict(modules=["pibas", "sse_bounded"], assumptions=A_SSE, bounded=[], partial=PARTIAL["C08"], runtime_checks=[["sse_bounded", "rt_c08"]]),
+    "C05": dict(modules=["pibas", "pipack", "sse_bounded"], assumptions=A_SSE, bounded=[], partial=PARTIAL["C05"], runtime_checks=[["sse_bounded", "rt_c05"]]),
+    "C06": dict(modules=["pibas", "pipack", "sse_bounded"], assumptions=A_SSE, bounded=[], partial=PARTIAL["C06"], runtime_checks=[["sse_bounded", "rt_c06"]]),
+    "C07": dict(modules=["pibas", "pipack", "sse_bounded"], assumptions=A_SSE, bounded=[], partial=PARTIAL["C07"], runtime_checks=[["sse_bounded", "rt_c07"]]),
+    "C08": dict(modules=["pibas", "pipack", "sse_bounded"], assumptions=A_SSE, bounded=[], partial=PARTIAL["C08"], runtime_checks=[["sse_bounded", "rt_c08"]]),
     "C19": dict(modules=["persist_bounded"], assumptions=A_ENGINE + ["D2: file objects: seek/read/write/close as documented"], bounded=[],
                 partial=PARTIAL["C19"], runtime_checks=[["persist_bounded", "rt_c19"]]),
     "C20": dict(modules=["persist_bounded"], assumptions=A_ENGINE + ["P1: pickle round trip", "D3: a dbm handle behaves like dict[bytes, bytes] within one session"], bounded=[],
